@@ -14,6 +14,7 @@ import (
 	"sort"
 	"strings"
 	"sync"
+	"syscall"
 	"time"
 )
 
@@ -205,6 +206,8 @@ type lineRef struct {
 	err     string
 	crashed string
 	died    bool // the reference process exited (log.Fatal): the line kills a process even when run alone
+	hang    string // file of the innermost model frame that was still running when the reference run was stopped
+	hangKnown bool
 	sameAs  int  // 1-based index of an earlier line with the same arguments (reference shared, output id renamed)
 }
 
@@ -246,7 +249,26 @@ func freshReference(env *Env, root string, args []string, outID string) *lineRef
 	cmd.Env = append(os.Environ(), "VERIF_MODE=ref", "VERIF_REF_ROOT="+root, "VERIF_REF_ARGS="+string(ab), "VERIF_REF_OUTID="+outID, "VERIF_OUT="+outFile, "VERIF_SCRATCH="+env.Scratch)
 	var eb bytes.Buffer
 	cmd.Stderr, cmd.Stdout = &eb, &eb
-	err := cmd.Run()
+	if err := cmd.Start(); err != nil {
+		return nil
+	}
+	done := make(chan error, 1)
+	go func() { done <- cmd.Wait() }()
+	var err error
+	select {
+	case err = <-done:
+	case <-time.After(time.Duration(envInt("VERIF_REF_TIMEOUT_S", 40)) * time.Second):
+		// a line that normally needs well under a second is still running: ask for a goroutine dump and classify it
+		cmd.Process.Signal(syscall.SIGQUIT)
+		select {
+		case <-done:
+		case <-time.After(5 * time.Second):
+			cmd.Process.Kill()
+			<-done
+		}
+		where := runningModelFrame(eb.String())
+		return &lineRef{files: map[string][]byte{}, success: false, err: "the run did not terminate", died: true, hang: where, hangKnown: where != ""}
+	}
 	b, rerr := os.ReadFile(outFile)
 	if rerr != nil {
 		// the reference process died (log.Fatal in the model, or a panic): the line cannot run alone either
@@ -543,6 +565,16 @@ func execBatch(sc *Scenario, env *Env) *Result {
 	for i := range sc.Lines {
 		if refs[i] == nil {
 			refs[i] = soloReference(sc, env, root, i)
+		}
+		if refs[i].died && refs[i].err == "the run did not terminate" {
+			if sc.Prop == "C11" && refs[i].hangKnown {
+				res.Violations = append(res.Violations, Violation{Prop: "C11", Oracle: "termination", Class: "run-does-not-terminate@" + refs[i].hang, Detail: fmt.Sprintf("line %q run alone was still executing model code (%s) after %d s; it normally needs well under a second", sc.lineText(i), refs[i].hang, envInt("VERIF_REF_TIMEOUT_S", 40)), Line: fmt.Sprint(i)})
+				res.Status = "violation"
+			} else {
+				res.Status, res.Note = "crash", "reference run of line "+fmt.Sprint(i)+" did not terminate"
+			}
+			res.WallMS = nowMS(t0)
+			return res
 		}
 		if refs[i].crashed != "" {
 			res.Status, res.Note = "crash", "reference run of line "+fmt.Sprint(i)+" panicked: "+shortPanic(refs[i].crashed)
